@@ -3466,6 +3466,276 @@ func stringOps(repo string) {
 
 // ==== END String() methods ====================================================================================
 
+// ==== default file handler of the attachment server (C19) =====================================================
+//   gen_file_calls  : every call in package attachment (non-test files) of a function of package os / ioutil that
+//                     creates, renames, links or removes a file-system entry, or changes the working directory, as
+//                     (function, first argument): "lit:<text>" for a string literal, "id:<name>" for an identifier,
+//                     "expr" otherwise; sorted
+//   gen_file_save_format / gen_file_save_args : savePath := fmt.Sprintf(<format>, <idents>...) of the save loop
+//   gen_file_filter_names / gen_file_filter_chars : the names compared with == and the character set handed to
+//                     strings.ContainsAny in the condition that guards `continue` in the save loop (as byte lists)
+//   gen_file_phone  : the selector chain the directory name `phone` is assigned from
+func fileHandler(repo string) {
+	files := parseDir(filepath.Join(repo, "attachment"))
+	creating := map[string]bool{"OpenFile": true, "Create": true, "CreateTemp": true, "Mkdir": true, "MkdirAll": true, "MkdirTemp": true,
+		"WriteFile": true, "Rename": true, "Symlink": true, "Link": true, "Remove": true, "RemoveAll": true, "Chdir": true, "Truncate": true,
+		"TempFile": true, "TempDir": true, "NewFile": true, "Chmod": true, "Chown": true, "OpenRoot": true}
+	argOf := func(e ast.Expr) string {
+		switch a := e.(type) {
+		case *ast.BasicLit:
+			if a.Kind == token.STRING {
+				if v, err := strconv.Unquote(a.Value); err == nil {
+					return "lit:" + v
+				}
+			}
+		case *ast.Ident:
+			return "id:" + a.Name
+		}
+		return "expr"
+	}
+	var calls []string
+	var names []string
+	for n := range files {
+		names = append(names, n)
+	}
+	sort.Strings(names)
+	for _, n := range names {
+		if strings.HasPrefix(n, "verif_") {
+			continue // the hooks of this framework (build tag verif)
+		}
+		ast.Inspect(files[n], func(x ast.Node) bool {
+			c, ok := x.(*ast.CallExpr)
+			if !ok {
+				return true
+			}
+			if se, ok := c.Fun.(*ast.SelectorExpr); ok {
+				if id, ok := se.X.(*ast.Ident); ok && (id.Name == "os" || id.Name == "ioutil") && creating[se.Sel.Name] {
+					a := "none"
+					if len(c.Args) > 0 {
+						a = argOf(c.Args[0])
+					}
+					calls = append(calls, fmt.Sprintf("(%s%%string, %s%%string)", strconv.Quote(id.Name+"."+se.Sel.Name), strconv.Quote(a)))
+				}
+			}
+			return true
+		})
+	}
+	emitCalls := func(saveVar, dirVar string) {
+		for i, c := range calls {
+			// identifiers are reported by ROLE, not by name: the variable the save loop formats and hands to WriteFile
+			// is <save>, the first argument of that format (the directory) is <dir>
+			if saveVar != "" {
+				c = strings.ReplaceAll(c, strconv.Quote("id:"+saveVar), strconv.Quote("id:<save>"))
+			}
+			if dirVar != "" {
+				c = strings.ReplaceAll(c, strconv.Quote("id:"+dirVar), strconv.Quote("id:<dir>"))
+			}
+			calls[i] = c
+		}
+		sort.Strings(calls)
+		fmt.Fprintf(&out, "\n(* attachment: file-system calls of the package, and the save step of the default file handler *)\n")
+		fmt.Fprintf(&out, "Definition gen_file_calls : list (string * string) := [%s].\n", strings.Join(calls, "; "))
+	}
+	bytesOf := func(s string) string {
+		var v []int64
+		for _, b := range []byte(s) {
+			v = append(v, int64(b))
+		}
+		return nlist(v)
+	}
+	// the save loop: the range statement whose body calls os.WriteFile, in whichever function of the package it
+	// lives (OnEvent today; an extracted helper after a refactoring); ev = that function
+	var loop *ast.RangeStmt
+	var ev *ast.FuncDecl
+	for _, n := range names {
+		if strings.HasPrefix(n, "verif_") {
+			continue
+		}
+		for _, d := range files[n].Decls {
+			fd, ok := d.(*ast.FuncDecl)
+			if !ok || fd.Body == nil {
+				continue
+			}
+			ast.Inspect(fd.Body, func(x ast.Node) bool {
+				if r, ok := x.(*ast.RangeStmt); ok {
+					has := false
+					ast.Inspect(r.Body, func(y ast.Node) bool {
+						if c, ok := y.(*ast.CallExpr); ok {
+							if se, ok := c.Fun.(*ast.SelectorExpr); ok && se.Sel.Name == "WriteFile" {
+								has = true
+							}
+						}
+						return true
+					})
+					if has && loop == nil {
+						loop, ev = r, fd
+					}
+				}
+				return true
+			})
+		}
+	}
+	if loop == nil {
+		// without the loop the roles <save> / <dir> cannot be assigned: the whole tie is withheld
+		fail("file_save", "no range loop calling WriteFile in package attachment")
+		return
+	}
+	// the variable handed to WriteFile in the loop
+	saveVar, dirVar := "", ""
+	ast.Inspect(loop.Body, func(y ast.Node) bool {
+		if c, ok := y.(*ast.CallExpr); ok {
+			if se, ok := c.Fun.(*ast.SelectorExpr); ok && se.Sel.Name == "WriteFile" && len(c.Args) > 0 {
+				if id, ok := c.Args[0].(*ast.Ident); ok {
+					saveVar = id.Name
+				}
+			}
+		}
+		return true
+	})
+	nameVar := ""
+	if id, ok := loop.Key.(*ast.Ident); ok {
+		nameVar = id.Name
+	}
+	// filter: the first statement of the loop body, an if whose body ends in continue
+	okFilter := false
+	var fnames, fchars []string
+	if len(loop.Body.List) > 0 {
+		if ifs, ok := loop.Body.List[0].(*ast.IfStmt); ok && ifs.Init == nil && ifs.Else == nil && len(ifs.Body.List) > 0 {
+			if br, ok := ifs.Body.List[len(ifs.Body.List)-1].(*ast.BranchStmt); ok && br.Tok == token.CONTINUE {
+				okFilter = true
+				var walk func(e ast.Expr)
+				walk = func(e ast.Expr) {
+					switch b := e.(type) {
+					case *ast.ParenExpr:
+						walk(b.X)
+					case *ast.BinaryExpr:
+						if b.Op == token.LOR {
+							walk(b.X)
+							walk(b.Y)
+							return
+						}
+						if b.Op == token.EQL {
+							x, y := b.X, b.Y
+							if _, isLit := x.(*ast.BasicLit); isLit {
+								x, y = y, x
+							}
+							id, ok1 := x.(*ast.Ident)
+							lit, ok2 := y.(*ast.BasicLit)
+							if ok1 && ok2 && id.Name == nameVar && lit.Kind == token.STRING {
+								if v, err := strconv.Unquote(lit.Value); err == nil {
+									fnames = append(fnames, bytesOf(v))
+									return
+								}
+							}
+						}
+						okFilter = false
+					case *ast.CallExpr:
+						if se, ok := b.Fun.(*ast.SelectorExpr); ok && se.Sel.Name == "ContainsAny" && len(b.Args) == 2 {
+							id, ok1 := b.Args[0].(*ast.Ident)
+							lit, ok2 := b.Args[1].(*ast.BasicLit)
+							if ok1 && ok2 && id.Name == nameVar && lit.Kind == token.STRING {
+								if v, err := strconv.Unquote(lit.Value); err == nil {
+									fchars = append(fchars, bytesOf(v))
+									return
+								}
+							}
+						}
+						okFilter = false
+					default:
+						okFilter = false
+					}
+				}
+				walk(ifs.Cond)
+			}
+		}
+	}
+	if !okFilter || len(fchars) != 1 {
+		fail("file_filter", "name filter of the save loop: not `name == lit || ... || strings.ContainsAny(name, lit)` guarding continue as first statement")
+	} else {
+		fmt.Fprintf(&out, "Definition gen_file_filter_names : list (list N) := [%s].\n", strings.Join(fnames, "; "))
+		fmt.Fprintf(&out, "Definition gen_file_filter_chars : list N := %s.\n", fchars[0])
+	}
+	// savePath := fmt.Sprintf(lit, idents...) inside the loop, and it is what WriteFile gets
+	okSave := false
+	ast.Inspect(loop.Body, func(x ast.Node) bool {
+		as, ok := x.(*ast.AssignStmt)
+		if !ok || len(as.Lhs) != 1 || len(as.Rhs) != 1 {
+			return true
+		}
+		lhs, ok := as.Lhs[0].(*ast.Ident)
+		c, ok2 := as.Rhs[0].(*ast.CallExpr)
+		if !ok || !ok2 || saveVar == "" || lhs.Name != saveVar {
+			return true
+		}
+		if se, ok := c.Fun.(*ast.SelectorExpr); ok && se.Sel.Name == "Sprintf" && len(c.Args) >= 1 {
+			if lit, ok := c.Args[0].(*ast.BasicLit); ok && lit.Kind == token.STRING {
+				f, _ := strconv.Unquote(lit.Value)
+				var args []string
+				for _, a := range c.Args[1:] {
+					if id, ok := a.(*ast.Ident); ok {
+						if id.Name == nameVar {
+							args = append(args, "\"<name>\"%string")
+						} else if len(args) == 0 {
+							dirVar = id.Name
+							args = append(args, "\"<dir>\"%string")
+						} else {
+							args = append(args, strconv.Quote(id.Name)+"%string")
+						}
+					} else {
+						args = append(args, "\"expr\"%string")
+					}
+				}
+				fmt.Fprintf(&out, "Definition gen_file_save_format : list N := %s.\n", bytesOf(f))
+				fmt.Fprintf(&out, "Definition gen_file_save_args : list string := [%s].\n", strings.Join(args, "; "))
+				okSave = true
+			}
+		}
+		return true
+	})
+	if !okSave {
+		fail("file_save", "<save> := fmt.Sprintf(literal, ...) for the variable handed to WriteFile not found in the save loop")
+	}
+	if okSave {
+		emitCalls(saveVar, dirVar)
+	}
+	// phone := <selector chain>
+	okPhone := false
+	ast.Inspect(ev.Body, func(x ast.Node) bool {
+		as, ok := x.(*ast.AssignStmt)
+		if !ok || len(as.Lhs) != 1 || len(as.Rhs) != 1 || okPhone {
+			return true
+		}
+		if lhs, ok := as.Lhs[0].(*ast.Ident); ok && dirVar != "" && lhs.Name == dirVar {
+			var chain []string
+			e := as.Rhs[0]
+			for {
+				if se, ok := e.(*ast.SelectorExpr); ok {
+					chain = append([]string{se.Sel.Name}, chain...)
+					e = se.X
+					continue
+				}
+				if id, ok := e.(*ast.Ident); ok {
+					chain = append([]string{id.Name}, chain...)
+					okPhone = true
+				}
+				break
+			}
+			if okPhone {
+				for i := range chain {
+					chain[i] = strconv.Quote(chain[i]) + "%string"
+				}
+				fmt.Fprintf(&out, "Definition gen_file_phone : list string := [%s].\n", strings.Join(chain, "; "))
+			}
+		}
+		return true
+	})
+	if !okPhone {
+		fail("file_phone", "<dir> := <selector chain> not found in the function of the save loop")
+	}
+}
+
+// ==== END default file handler ================================================================================
+
 func main() {
 	repo := flag.String("repo", "/repo", "repository root")
 	outp := flag.String("out", "", "output .v file")
@@ -3490,6 +3760,7 @@ func main() {
 	frameLayout(*repo)  // header layout of the JT/T 808 frame (C01 C02 C04)
 	jt1078Layout(*repo) // header layout of the JT/T 1078 packet (C17)
 	attachLayout(*repo) // chunk header of the attachment stream (C15)
+	fileHandler(*repo)  // file-system calls of package attachment and the save step (C19)
 	stringOps(*repo)    // String() methods: partial operations and callees (C03)
 	q := make([]string, len(unrecognised))
 	for i, u := range unrecognised {
